@@ -841,4 +841,44 @@ theorem ident_mem (o : List Nat) (p : P Nat) (hp : p ∈ identFrom 0 o) :
 theorem snds_getElem? (l : List (P β)) (i : Nat) (h : i < l.length) : (snds l)[i]? = some (valAt l i) := by
   simp [snds, valAt, List.getElem?_eq_getElem h]
 
+/-! ### character boundaries of the rewritten text, read off the offset map (used by `C01.lattice_tokens_partition`) -/
+
+/-- in a sentinel-free body the byte of entry `c` is byte `c` of the text -/
+theorem allSome_getElem {body : List (P β)} (h : AllSome body) : ∀ (c : Nat) (hc : c < body.length),
+    (body[c]).1 = (textOf body)[c]? := by
+  induction body with
+  | nil => intro c hc; simp at hc
+  | cons p r ih =>
+    obtain ⟨x, v⟩ := p
+    have hx := h (x, v) (by simp)
+    cases x with
+    | none => simp at hx
+    | some b =>
+      intro c hc
+      have ht : textOf ((some b, v) :: r) = b :: textOf r := by simp [textOf]
+      rw [ht]
+      cases c with
+      | zero => simp
+      | succ c =>
+        simp only [List.getElem_cons_succ, List.getElem?_cons_succ]
+        exact ih (fun q hq => h q (by simp [hq])) c (by simpa using hc)
+
+/-- a character boundary of the rewritten text (`BoOf (textOf l)`) is a boundary entry of the map -/
+theorem isB_of_boOf {N : Nat} {l : List (P Nat)} (hs : Shape N l) (c : Nat) (hb : BoOf (textOf l) c)
+    (hc : c < l.length) : isB isStart l[c] := by
+  obtain ⟨body, rfl, hall⟩ := hs
+  rw [textOf_shape] at hb
+  have hlen := textOf_allSome_length hall
+  rcases hb with hb | ⟨hlt, hst⟩
+  · have : c = body.length := by omega
+    subst this
+    simp [isB]
+  · have hcb : c < body.length := by omega
+    have hg : (body ++ [((none : Option Nat), N)])[c] = body[c] := List.getElem_append_left hcb
+    have h1 := allSome_getElem hall c hcb
+    rw [List.getElem?_eq_getElem hlt] at h1
+    unfold isB
+    rw [hg, h1]
+    exact hst
+
 end EditM
